@@ -174,6 +174,8 @@ def build_array(spec, form=0):
                 l1 = labs[1].tolist()
                 nested = {k: {k1: vals[i, j].item() for j, k1 in enumerate(l1)} for i, k in enumerate(l0)}
             a = DimArray(nested, dims=list(dims))
+    elif form == 7:  # (name, labels) pairs with string labels given as a numpy unicode array rather than a list
+        a = DimArray(vals, axes=[(d, np.array(l.tolist()) if l.dtype.kind == "O" and len(l) else l) for l, d in zip(labs, dims)])
     else:
         raise ValueError(form)
     a.attrs.update(attrs)
